@@ -1,28 +1,27 @@
 (* C17, output side — the number of address octets the encoder emits for an address-prefix item
    (APL item, RFC 3123; EDNS client subnet, RFC 7871), characterised exactly:
-       emitted = min (prefix / 8 + 1, family size).
-   Known findings KF2 (ECS) and KF3 (APL): this is NOT the RFC count; see Proofs/C17.v. *)
+       emitted = max (significant octets, minimum length)
+   where the significant octets end at the last non-zero octet, and the minimum length is 0 for an APL
+   item and ceil(source / 8) for ECS.  For APL this is the RFC 3123 count; for ECS it is the RFC 7871
+   count unless a non-zero octet lies beyond it (known finding KF2, narrowed); see Proofs/C17Rt.v. *)
 From Coq Require Import ZArith ZifyBool ZifyN ZifyNat.
-From DNS Require Import Model.Values Model.Dec Model.Enc Proofs.C12 Proofs.C17Dec.
+From DNS Require Import Proofs.EncTotal Model.Values Model.Dec Model.Enc Proofs.C12 Proofs.C17Dec.
 Local Open Scope N_scope.
 Ltac Zify.zify_post_hook ::= Z.div_mod_to_equations.
 
 (* ---- generated constants: these break when the Rust source changes ---- *)
-Lemma OP_enc_prefix4_val : OP_enc_prefix4 = CLt. Proof. reflexivity. Qed.
-Lemma OP_enc_prefix6_val : OP_enc_prefix6 = CLt. Proof. reflexivity. Qed.
-Lemma ENC_PREFIX_STEP4_val : ENC_PREFIX_STEP4 = 8. Proof. reflexivity. Qed.
-Lemma ENC_PREFIX_STEP6_val : ENC_PREFIX_STEP6 = 8. Proof. reflexivity. Qed.
+Lemma ENC_APL_MINIMUM_LENGTH_val : ENC_APL_MINIMUM_LENGTH = 0. Proof. reflexivity. Qed.
 Lemma APL_NEGATION_MASK_val : APL_NEGATION_MASK = 128. Proof. reflexivity. Qed.
 Lemma OP_apl_len_val : OP_apl_len = CLt. Proof. reflexivity. Qed.
 Lemma OPT_ECS_val : OPT_ECS = 8. Proof. reflexivity. Qed.
 Lemma POW16_value : POW16 = 65536. Proof. reflexivity. Qed.
 
 (* ---- the count ---- *)
-Definition emit_count (p size : N) : N := N.min (p / 8 + 1) size.
+Definition emit_count (oct : bytes) (minimum : N) : N := N.max (addr_significant oct) minimum.
 
-Lemma emit_count_le p size : emit_count p size <= size.
-Proof. unfold emit_count. lia. Qed.
-Lemma emit_count_pos p size : 0 < size -> 0 < emit_count p size.
+Lemma emit_count_le oct m : m <= lenN oct -> emit_count oct m <= lenN oct.
+Proof. intros H. unfold emit_count. pose proof (addr_significant_le oct). lia. Qed.
+Lemma emit_count_zero oct : emit_count oct 0 = addr_significant oct.
 Proof. unfold emit_count. lia. Qed.
 
 (* ---- N-indexed list facts ---- *)
@@ -47,37 +46,10 @@ Proof.
   reflexivity.
 Qed.
 
-(* ---- the loop of rr_address_ipv4 / rr_address_ipv6 ---- *)
-Lemma addr_prefix_loop_eq : forall (oct : bytes) (p : N),
-  addr_prefix_loop CLt 8 oct p = Ok (takeN (emit_count p (lenN oct)) oct).
-Proof.
-  unfold emit_count.
-  induction oct as [|b r IH]; intros p.
-  - rewrite takeN_nil. reflexivity.
-  - cbn [addr_prefix_loop cmp_apply].
-    destruct (p <? 8) eqn:E.
-    + apply N.ltb_lt in E. rewrite lenN_cons_.
-      replace (N.min (p / 8 + 1) (lenN r + 1)) with (0 + 1) by lia.
-      rewrite takeN_succ_cons. reflexivity.
-    + apply N.ltb_ge in E. rewrite IH, lenN_cons_.
-      replace (N.min (p / 8 + 1) (lenN r + 1)) with (N.min ((p - 8) / 8 + 1) (lenN r) + 1) by lia.
-      rewrite takeN_succ_cons. reflexivity.
-Qed.
-
-Lemma addr_prefix_loop4 (oct : bytes) (p : N) :
-  addr_prefix_loop OP_enc_prefix4 ENC_PREFIX_STEP4 oct p = Ok (takeN (emit_count p (lenN oct)) oct).
-Proof. rewrite OP_enc_prefix4_val, ENC_PREFIX_STEP4_val. apply addr_prefix_loop_eq. Qed.
-Lemma addr_prefix_loop6 (oct : bytes) (p : N) :
-  addr_prefix_loop OP_enc_prefix6 ENC_PREFIX_STEP6 oct p = Ok (takeN (emit_count p (lenN oct)) oct).
-Proof. rewrite OP_enc_prefix6_val, ENC_PREFIX_STEP6_val. apply addr_prefix_loop_eq. Qed.
-
-(* Encoder::rr_address_with_prefix, for any address value: appends exactly that many octets *)
-Lemma rr_address_with_prefix_eq (a : addr) (p : N) (st : est) :
-  rr_address_with_prefix a p st = put (takeN (emit_count p (lenN (a_oct a))) (a_oct a)) st.
-Proof.
-  unfold rr_address_with_prefix. rewrite addr_prefix_loop4, addr_prefix_loop6.
-  destruct (a_fam a =? 1); reflexivity.
-Qed.
+(* Encoder::rr_address_with_length, for any address value: appends exactly that many octets *)
+Lemma rr_address_with_length_count (a : addr) (m : N) (st : est) :
+  rr_address_with_length a m st = put (takeN (emit_count (a_oct a) m) (a_oct a)) st.
+Proof. apply rr_address_with_length_eq. Qed.
 
 Lemma addr_wf_len (a : addr) : addr_wf a -> lenN (a_oct a) = addr_size a.
 Proof.
@@ -98,7 +70,7 @@ Qed.
 
 (* ---- Encoder::rr_apl_apitem ---- *)
 Definition apitem_wire (i : apitem) : bytes :=
-  let cnt := emit_count (i_prefix i) (addr_size (i_addr i)) in
+  let cnt := addr_significant (a_oct (i_addr i)) in
   u16b (a_fam (i_addr i)) ++ [i_prefix i mod 256] ++ [negbit (i_neg i) + cnt] ++ takeN cnt (a_oct (i_addr i)).
 
 Lemma enc_apitem_eq (i : apitem) (st : est) : addr_wf (i_addr i) ->
@@ -107,15 +79,16 @@ Proof.
   intros Hwf. pose proof (addr_wf_len _ Hwf) as Hlen.
   unfold apitem_wire. cbv zeta.
   set (size := addr_size (i_addr i)) in *.
-  set (cnt := emit_count (i_prefix i) size).
+  set (cnt := addr_significant (a_oct (i_addr i))).
+  assert (Hcs : cnt <= size).
+  { pose proof (addr_significant_le (a_oct (i_addr i))) as H. fold cnt in H. lia. }
   assert (Hcnt : cnt <= 16).
-  { pose proof (emit_count_le (i_prefix i) size). fold cnt in H.
-    destruct (addr_size_cases (i_addr i)) as [E|E]; fold size in E; lia. }
+  { destruct (addr_size_cases (i_addr i)) as [E|E]; fold size in E; lia. }
   set (ad := takeN cnt (a_oct (i_addr i))).
   assert (Had : lenN ad = cnt).
-  { unfold ad. rewrite lenN_takeN_, Hlen. pose proof (emit_count_le (i_prefix i) size). fold cnt in H. lia. }
+  { unfold ad. rewrite lenN_takeN_, Hlen. lia. }
   unfold enc_apitem, ebind, eu16, eu8, put, buf_len. cbn [e_buf e_idx e_names].
-  rewrite rr_address_with_prefix_eq. rewrite Hlen. fold size. fold cnt. fold ad.
+  rewrite rr_address_with_length_count, ENC_APL_MINIMUM_LENGTH_val, emit_count_zero. fold cnt. fold ad.
   unfold put. cbn [e_buf e_idx e_names].
   set (pre := (e_buf st ++ u16b (a_fam (i_addr i))) ++ u8b (i_prefix i)).
   unfold set_address_length_index, ebind, buf_len. cbn [e_buf e_idx e_names].
@@ -145,26 +118,33 @@ Proof.
 Qed.
 
 (* ---- Encoder::rr_edns_ecs (code 8, option length, family, source, scope, address) ---- *)
+Definition ecs_count (e : ecs) : N := emit_count (a_oct (e_addr e)) ((e_src e + 7) / 8).
 Definition ecs_wire (e : ecs) : bytes :=
-  let cnt := emit_count (ecs_prefix e) (addr_size (e_addr e)) in
+  let cnt := ecs_count e in
   u16b OPT_ECS ++ u16b (4 + cnt) ++ u16b (a_fam (e_addr e)) ++ [e_src e mod 256] ++ [e_scope e mod 256]
   ++ takeN cnt (a_oct (e_addr e)).
 
-Lemma enc_ecs_eq (e : ecs) (st : est) : addr_wf (e_addr e) ->
+Lemma ecs_count_le (e : ecs) : addr_wf (e_addr e) -> e_src e <= 8 * addr_size (e_addr e) ->
+  ecs_count e <= addr_size (e_addr e).
+Proof.
+  intros Hwf Hsrc. rewrite <- (addr_wf_len _ Hwf). apply emit_count_le. rewrite (addr_wf_len _ Hwf). lia.
+Qed.
+
+Lemma enc_ecs_eq (e : ecs) (st : est) : addr_wf (e_addr e) -> e_src e <= 8 * addr_size (e_addr e) ->
   enc_ecs e st = EOk tt {| e_buf := e_buf st ++ ecs_wire e; e_idx := e_idx st; e_names := e_names st |}.
 Proof.
-  intros Hwf. pose proof (addr_wf_len _ Hwf) as Hlen.
+  intros Hwf Hsrc. pose proof (addr_wf_len _ Hwf) as Hlen.
+  pose proof (ecs_count_le e Hwf Hsrc) as Hcs.
   unfold ecs_wire. cbv zeta.
   set (size := addr_size (e_addr e)) in *.
-  set (cnt := emit_count (ecs_prefix e) size).
+  set (cnt := ecs_count e) in *.
   assert (Hcnt : cnt <= 16).
-  { pose proof (emit_count_le (ecs_prefix e) size). fold cnt in H.
-    destruct (addr_size_cases (e_addr e)) as [E|E]; fold size in E; lia. }
+  { destruct (addr_size_cases (e_addr e)) as [E|E]; fold size in E; lia. }
   set (ad := takeN cnt (a_oct (e_addr e))).
   assert (Had : lenN ad = cnt).
-  { unfold ad. rewrite lenN_takeN_, Hlen. pose proof (emit_count_le (ecs_prefix e) size). fold cnt in H. lia. }
+  { unfold ad. rewrite lenN_takeN_, Hlen. lia. }
   unfold enc_ecs, create_length_index, ebind, eu16, eu8, put, buf_len, eret. cbn [e_buf e_idx e_names].
-  rewrite rr_address_with_prefix_eq. rewrite Hlen. fold size. fold cnt. fold ad.
+  rewrite rr_address_with_length_count, ecs_minimum_length_eq. fold (ecs_count e). fold cnt. fold ad.
   unfold put. cbn [e_buf e_idx e_names].
   set (pre := e_buf st ++ u16b OPT_ECS).
   set (mid := u16b (a_fam (e_addr e)) ++ u8b (e_src e) ++ u8b (e_scope e) ++ ad).
